@@ -138,6 +138,8 @@ func c18JudgeOp(c *Ctx, kind string, in sx.V, tag string, src *c18Src, op sx.V, 
 		c18KeyOracle(c, kind, in, tag, src, op.List[1].Bits, out)
 	case "walk":
 		c18WalkOracle(c, kind, in, tag, src, c18PathsOf(op.List[1]), out)
+	case "prog":
+		c18WalkOracle(c, kind, in, tag, src, progPrunes(op.List[1].List), out)
 	}
 }
 
